@@ -7,6 +7,7 @@ import (
 	"go/printer"
 	"go/token"
 	"path/filepath"
+	"sort"
 	"strconv"
 	"strings"
 )
@@ -108,6 +109,94 @@ func FindReadLoopExceptions() (exc []ReadLoopException, handOver bool) {
 	return nil, false
 }
 
+// ReadOrder lists, in statement order, what (*Channel).<name> consults: "errs" (a select arm
+// receiving from c.Errs that returns the error), "exited" (an if on readLoopExited that returns an
+// error), "dequeue" / "dequeue-all" (the first call of c.Q.Dequeue / c.Q.DequeueAll). Anything after
+// the dequeue is not listed.
+func ReadOrder(name string) []string {
+	files := ParseDir(filepath.Join(Repo, "channel"))
+	var out []string
+	for _, fn := range SortedNames(files) {
+		for _, decl := range files[fn].Decls {
+			fd, ok := decl.(*ast.FuncDecl)
+			if !ok || fd.Body == nil || fd.Name.Name != name || fd.Recv == nil {
+				continue
+			}
+			done := false
+			var walk func(list []ast.Stmt)
+			walk = func(list []ast.Stmt) {
+				for _, st := range list {
+					if done {
+						return
+					}
+					src := nodeSrc(st)
+					switch s := st.(type) {
+					case *ast.SelectStmt:
+						for _, cc := range s.Body.List {
+							c := cc.(*ast.CommClause)
+							if c.Comm != nil && strings.Contains(nodeSrc(c.Comm), "<-c.Errs") && blockAction(c.Body) == "exit" {
+								out = append(out, "errs")
+							}
+						}
+						continue
+					case *ast.IfStmt:
+						if strings.Contains(nodeSrc(s.Cond), "readLoopExited") && blockAction(s.Body.List) == "exit" &&
+							!strings.Contains(nodeSrc(s.Cond), "!") {
+							out = append(out, "exited")
+							continue
+						}
+					}
+					if strings.Contains(src, "c.Q.DequeueAll(") {
+						out = append(out, "dequeue-all")
+						done = true
+					} else if strings.Contains(src, "c.Q.Dequeue(") {
+						out = append(out, "dequeue")
+						done = true
+					}
+				}
+			}
+			walk(fd.Body.List)
+		}
+	}
+	return out
+}
+
+// ReadSources lists, per ReadUntil* loop, every call it makes that takes bytes off the channel:
+// c.Read(), c.ReadAll(), c.Q.Dequeue…().
+func ReadSources() [][2]string {
+	files := ParseDir(filepath.Join(Repo, "channel"))
+	var out [][2]string
+	for _, fn := range SortedNames(files) {
+		for _, decl := range files[fn].Decls {
+			fd, ok := decl.(*ast.FuncDecl)
+			if !ok || fd.Body == nil || fd.Recv == nil || !strings.HasPrefix(fd.Name.Name, "ReadUntil") {
+				continue
+			}
+			var calls []string
+			ast.Inspect(fd.Body, func(n ast.Node) bool {
+				if ce, ok := n.(*ast.CallExpr); ok {
+					f := nodeSrc(ce.Fun)
+					if f == "c.Read" || f == "c.ReadAll" || strings.HasPrefix(f, "c.Q.") {
+						calls = append(calls, f)
+					}
+				}
+				return true
+			})
+			out = append(out, [2]string{fd.Name.Name, strings.Join(calls, ",")})
+		}
+	}
+	sort.Slice(out, func(i, j int) bool { return out[i][0] < out[j][0] })
+	return out
+}
+
+func c06StrList(xs []string) string {
+	q := make([]string, len(xs))
+	for i, x := range xs {
+		q[i] = strconv.Quote(x)
+	}
+	return "[" + strings.Join(q, ", ") + "]"
+}
+
 // GenC06ReadLoop renders Generated/C06ReadLoop.lean.
 func GenC06ReadLoop() string {
 	exc, hand := FindReadLoopExceptions()
@@ -121,6 +210,16 @@ func GenC06ReadLoop() string {
 	}
 	b.WriteString("def exceptions : List (String × String) := [" + strings.Join(items, ", ") + "]\n\n")
 	b.WriteString("/-- the block contains the hand-over `c.Errs <- err` -/\n")
-	fmt.Fprintf(&b, "def handOverPresent : Bool := %v\n\nend Scrapli.Gen.C06ReadLoop\n", hand)
+	fmt.Fprintf(&b, "def handOverPresent : Bool := %v\n\n", hand)
+	b.WriteString("/-- what `Channel.Read` consults, in order, up to and including the dequeue -/\n")
+	b.WriteString("def readOrder : List String := " + c06StrList(ReadOrder("Read")) + "\n\n")
+	b.WriteString("/-- the same for `Channel.ReadAll` -/\n")
+	b.WriteString("def readAllOrder : List String := " + c06StrList(ReadOrder("ReadAll")) + "\n\n")
+	b.WriteString("/-- per `ReadUntil*` loop: the calls that take bytes off the channel -/\n")
+	var src []string
+	for _, p := range ReadSources() {
+		src = append(src, fmt.Sprintf("(%s, %s)", strconv.Quote(p[0]), strconv.Quote(p[1])))
+	}
+	b.WriteString("def readSources : List (String × String) := [" + strings.Join(src, ", ") + "]\n\nend Scrapli.Gen.C06ReadLoop\n")
 	return b.String()
 }
